@@ -10,6 +10,8 @@
 //   reload    config.Coordinator.Reload sequences with bad files / failing subscribers (CReload).
 //   malformed bytes: only the outcome class (never panic, never hang). A TEST, not a proof (see props/C17.json).
 //   raw       corpus witnesses (YAML text): outcome class only.
+//   shapes    (nested.go) reflection over every configuration type: null elements in every list, non-string keys in
+//             every free-form field, null for every pointer/struct/map field; class only (never panics, never hangs).
 //   use       (use.go) load -> print -> build the real integrations -> notify through each (ok sink, failing sink,
 //             resolved) -> print: no canary, and the text is unchanged (the live config is immutable under traffic).
 //   concurrent real goroutines (no synctest): loaders loop config.Load while renderers loop Config.String() of an
@@ -1303,6 +1305,7 @@ func TestCheck(t *testing.T) {
 		x.concurrentStream(r.Fork(), cbudget)
 		x.useStream(r.Fork(), env.N(30, 8))
 		x.statusStream(1500 * time.Millisecond)
+		x.shapesStream(r.Fork())
 		// which secret-typed field paths were actually set at least once
 		total := secretTypePaths(reflect.TypeOf(config.Config{}), "", 0, map[reflect.Type]int{})
 		covered := 0
